@@ -24,6 +24,7 @@ type c04Gaps struct {
 	s       *fw.GxSym
 	total   *ssa.Parameter
 	rs      *ssa.Parameter
+	list    ssa.Value // the list the merge loop reads: the parameter itself or a local slices.Clone of it
 	m       *ssa.Alloc
 	starts  []*ssa.Store // m = R[i]
 	runIdx  ssa.Value    // i
@@ -71,6 +72,14 @@ func c04ResolveGaps(p *fw.Program) (*c04Gaps, string) {
 		idx ssa.Value
 	}
 	cells := map[*ssa.Alloc][]cand{}
+	// local copies of the parameter (the caller's slice is then left unsorted): same elements, same length
+	clones := map[ssa.Value]bool{}
+	fw.EachInstr(fn, func(ins ssa.Instruction) {
+		if c, ok := ins.(*ssa.Call); ok && fw.CalleeName(c) == "slices.Clone" && len(c.Call.Args) == 1 && fw.GxSliceRoot(c.Call.Args[0]) == ssa.Value(g.rs) {
+			clones[c] = true
+		}
+	})
+	mixed := false
 	fw.EachInstr(fn, func(ins ssa.Instruction) {
 		st, ok := ins.(*ssa.Store)
 		if !ok {
@@ -81,11 +90,22 @@ func c04ResolveGaps(p *fw.Program) (*c04Gaps, string) {
 			return
 		}
 		ia, ok := c04LoadOf(st.Val).(*ssa.IndexAddr)
-		if !ok || fw.GxSliceRoot(ia.X) != ssa.Value(g.rs) {
+		if !ok {
 			return
 		}
+		root := fw.GxSliceRoot(ia.X)
+		if root == nil || (root != ssa.Value(g.rs) && !clones[root]) {
+			return
+		}
+		if g.list != nil && g.list != root {
+			mixed = true
+		}
+		g.list = root
 		cells[a] = append(cells[a], cand{st, ia.Index})
 	})
+	if mixed || g.list == nil {
+		return nil, "the run is not loaded from one list (the ranges parameter or a local clone of it)"
+	}
 	flushOf := map[*ssa.Alloc][]*ssa.Call{}
 	fw.EachInstr(fn, func(ins ssa.Instruction) {
 		c, ok := ins.(*ssa.Call)
@@ -152,6 +172,7 @@ func c04ResolveGaps(p *fw.Program) (*c04Gaps, string) {
 	}
 	g.s.Name(g.total, "total")
 	g.s.Name(g.rs, "R")
+	g.s.Name(g.list, "R")
 	g.s.Name(g.m, "m")
 	g.s.Name(g.mRoot, "M")
 	g.s.Name(g.gRoot, "G")
@@ -197,7 +218,7 @@ func c04Sort(r *fw.Run, g *c04Gaps) {
 			continue
 		}
 		cl, ok := c.(*ssa.Call)
-		if !ok || len(cl.Call.Args) != 2 || fw.GxSliceRoot(cl.Call.Args[0]) != ssa.Value(g.rs) {
+		if !ok || len(cl.Call.Args) != 2 || fw.GxSliceRoot(cl.Call.Args[0]) != g.list {
 			continue
 		}
 		sortCall = cl
@@ -323,22 +344,58 @@ func c04Merge(r *fw.Run, g *c04Gaps) {
 			ext = append(ext, st)
 		}
 	})
+	// alternatively the run is replaced as a whole by the span helper: m = MinMax(m, ranges[j])
+	var spanOther ssa.Value // the argument of MinMax that is not the run
+	if len(ext) == 0 {
+		mm := g.p.Fn("pkg/ranges.MinMax")
+		fw.EachInstr(g.fn, func(ins ssa.Instruction) {
+			stw, ok := ins.(*ssa.Store)
+			if !ok || stw.Addr != ssa.Value(g.m) || stw == g.starts[0] {
+				return
+			}
+			call, ok := stw.Val.(*ssa.Call)
+			if !ok || mm == nil || call.Common().StaticCallee() != mm || len(call.Call.Args) != 2 {
+				return
+			}
+			for i, a := range call.Call.Args {
+				if c04LoadOf(a) == ssa.Value(g.m) {
+					ext = append(ext, stw)
+					spanOther = call.Call.Args[1-i]
+				}
+			}
+		})
+	}
 	if len(ext) != 1 {
-		ru.Undecided("Gaps:extend", g.pos(g.starts[0]), fmt.Sprintf("expected exactly one assignment to the run's Len (m.Len = ...), found %d", len(ext)))
+		ru.Undecided("Gaps:extend", g.pos(g.starts[0]), fmt.Sprintf("expected exactly one assignment to the run's Len (m.Len = ... or m = MinMax(m, next)), found %d", len(ext)))
 		return
 	}
 	st := ext[0]
 	facts := s.GuardFacts(st.Block())
 	mStart, mLen := c04A("m.Start"), c04A("m.Len")
+	iStr := s.Int(g.runIdx).String()
+	// the run was loaded from R[i]: a test that R[i] is non-empty is a test of the run
+	isRunElemNonEmpty := func(f fw.GxFact) bool {
+		l := c04A("R[" + iStr + "].Len")
+		return f.Same(fw.GxFact{P: l, K: fw.GxNE}) || f.Same(fw.GxFact{P: l.Sub(fw.PConst(1)), K: fw.GxGE})
+	}
 	// the scanned element index J
 	idxSet := map[string]bool{}
 	for _, f := range facts {
+		if isRunElemNonEmpty(f.GxFact) {
+			continue
+		}
 		for k := range c04IndexOf(f.P, "R") {
 			idxSet[k] = true
 		}
 	}
-	for k := range c04IndexOf(s.Int(st.Val), "R") {
-		idxSet[k] = true
+	if spanOther != nil {
+		for k := range c04IndexOf(c04A(s.Val(spanOther).Loc+".Start"), "R") {
+			idxSet[k] = true
+		}
+	} else {
+		for k := range c04IndexOf(s.Int(st.Val), "R") {
+			idxSet[k] = true
+		}
 	}
 	if len(idxSet) != 1 {
 		ru.Fail("Gaps:merge-predicate", g.pos(st), fmt.Sprintf("the merge test and the extension of the run refer to %d different list elements, expected exactly the scanned one", len(idxSet)))
@@ -351,7 +408,7 @@ func c04Merge(r *fw.Run, g *c04Gaps) {
 	rj := "R[" + J + "]"
 	var jVal ssa.Value
 	fw.EachInstr(g.fn, func(ins ssa.Instruction) {
-		if ia, ok := ins.(*ssa.IndexAddr); ok && fw.GxSliceRoot(ia.X) == ssa.Value(g.rs) && s.Int(ia.Index).String() == J {
+		if ia, ok := ins.(*ssa.IndexAddr); ok && fw.GxSliceRoot(ia.X) == g.list && s.Int(ia.Index).String() == J {
 			jVal = ia.Index
 		}
 	})
@@ -390,7 +447,7 @@ func c04Merge(r *fw.Run, g *c04Gaps) {
 				continue
 			}
 		}
-		if f.Same(fw.GxFact{P: mLen, K: fw.GxNE}) || f.Same(fw.GxFact{P: mLen.Sub(fw.PConst(1)), K: fw.GxGE}) {
+		if f.Same(fw.GxFact{P: mLen, K: fw.GxNE}) || f.Same(fw.GxFact{P: mLen.Sub(fw.PConst(1)), K: fw.GxGE}) || isRunElemNonEmpty(f.GxFact) {
 			continue // the run is non-empty (C04.runs)
 		}
 		ru.Fail("Gaps:merge-guard:"+g.pretty(f.String()), g.pos(f.If), "unrecognised condition on the merge path: "+g.pretty(f.String()))
@@ -402,7 +459,18 @@ func c04Merge(r *fw.Run, g *c04Gaps) {
 	want := c04Stop(rj).Sub(mStart)
 	val := s.Int(st.Val)
 	isMax := false
-	if call, ok := st.Val.(*ssa.Call); ok && fw.IsBuiltinCall(call, "max") && len(call.Call.Args) == 2 {
+	if spanOther != nil {
+		// MinMax(m, R[j]) = {min start, max stop - min start}; the list is sorted, so min start is m.Start
+		okSpan, why := c04MinMaxOK(g.p)
+		if !okSpan {
+			ru.Fail("Gaps:extend-span", g.pos(st), "the run is extended with ranges.MinMax, which is not {min(a.Start, b.Start), max(a.Stop(), b.Stop()) - min start}: "+why)
+		} else {
+			ru.Ok("Gaps:extend-span", g.pos(st), "ranges.MinMax is the span of its arguments")
+		}
+		isMax = s.Val(spanOther).Loc == rj
+		val = c04A("MinMax(m, " + g.pretty(s.Val(spanOther).Loc) + ").Len")
+	}
+	if call, ok := st.Val.(*ssa.Call); ok && spanOther == nil && fw.IsBuiltinCall(call, "max") && len(call.Call.Args) == 2 {
 		a, b := s.Int(call.Call.Args[0]), s.Int(call.Call.Args[1])
 		if (a.Equal(mLen) && b.Equal(want)) || (b.Equal(mLen) && a.Equal(want)) {
 			isMax = true
@@ -563,6 +631,39 @@ func c04Merge(r *fw.Run, g *c04Gaps) {
 	}
 }
 
+// c04MinMaxOK: ranges.MinMax(a, b) returns Range{min(a.Start, b.Start), max(a.Stop(), b.Stop()) - min(a.Start, b.Start)}.
+func c04MinMaxOK(p *fw.Program) (bool, string) {
+	fn := p.Fn("pkg/ranges.MinMax")
+	if fn == nil || len(fn.Params) != 2 || len(fn.Blocks) != 1 {
+		return false, "ranges.MinMax not found or not a straight-line function"
+	}
+	s := fw.NewGxSym(fn)
+	s.Name(fn.Params[0], "a")
+	s.Name(fn.Params[1], "b")
+	ret, ok := fn.Blocks[0].Instrs[len(fn.Blocks[0].Instrs)-1].(*ssa.Return)
+	if !ok || len(ret.Results) != 1 {
+		return false, "no single result"
+	}
+	f, _, ok := fw.GxLitFields(ret.Results[0])
+	if !ok || f["Start"] == nil || f["Len"] == nil {
+		return false, "result is not a Range{Start, Len} literal"
+	}
+	mm := func(name string, x, y *fw.Poly) *fw.Poly {
+		as := []string{x.String(), y.String()}
+		sort.Strings(as)
+		return fw.PAtom(name + "(" + strings.Join(as, ", ") + ")")
+	}
+	wantStart := mm("min", c04A("a.Start"), c04A("b.Start"))
+	wantLen := mm("max", c04Stop("a"), c04Stop("b")).Sub(wantStart)
+	if !s.Int(f["Start"]).Equal(wantStart) {
+		return false, "Start is " + s.Int(f["Start"]).String()
+	}
+	if !s.Int(f["Len"]).Equal(wantLen) {
+		return false, "Len is " + s.Int(f["Len"]).String()
+	}
+	return true, ""
+}
+
 func c04Abs(c int64) int64 {
 	if c < 0 {
 		return -c
@@ -584,12 +685,13 @@ var c04PendName = [...]string{"no run", "untested run", "pending run", "flushed 
 
 type c04State struct {
 	pend  int
+	alias bool // the run cell still holds exactly R[i] (loaded, not yet modified)
 	env   map[ssa.Value]int64
 	facts []fw.GxFact
 }
 
 func (st c04State) clone() c04State {
-	n := c04State{pend: st.pend, env: map[ssa.Value]int64{}}
+	n := c04State{pend: st.pend, alias: st.alias, env: map[ssa.Value]int64{}}
 	for k, v := range st.env {
 		n.env[k] = v
 	}
@@ -608,7 +710,7 @@ func (st c04State) key() string {
 		fs = append(fs, f.String())
 	}
 	sort.Strings(fs)
-	return fmt.Sprintf("%d|%s|%s", st.pend, strings.Join(es, ","), strings.Join(fs, ";"))
+	return fmt.Sprintf("%d%v|%s|%s", st.pend, st.alias, strings.Join(es, ","), strings.Join(fs, ";"))
 }
 
 func (st *c04State) addFact(f fw.GxFact) {
@@ -780,14 +882,17 @@ func c04Runs(r *fw.Run, g *c04Gaps) {
 			switch x := ins.(type) {
 			case *ssa.Store:
 				if x.Addr == ssa.Value(g.m) {
+					st.alias = false
 					if x == g.starts[0] {
 						if st.pend == c04Unknown || st.pend == c04NonEmpty {
 							addErr("Gaps:run-start", "a new run is loaded while the previous one was never appended to the merged list: its bits are reported as a gap")
 						}
 						st.pend = c04Unknown
+						st.alias = true
 					}
 					st.dropFacts(func(f fw.GxFact) bool { return f.Mentions("m.") })
 				} else if fa, ok := x.Addr.(*ssa.FieldAddr); ok && fa.X == ssa.Value(g.m) {
+					st.alias = false
 					loc := s.Val(fa).Loc
 					st.dropFacts(func(f fw.GxFact) bool { return f.Mentions(loc) })
 				}
@@ -839,8 +944,28 @@ func c04Runs(r *fw.Run, g *c04Gaps) {
 			val = !val
 		}
 		tf, okF := s.FactOf(ifi.Cond, true)
+		if okF && st.alias {
+			// the run cell is a fresh copy of R[i]: a test of the element is a test of the run
+			for _, fld := range []string{"Start", "Len"} {
+				tf.P = fw.GxReplaceAtom(tf.P, c04A("R["+s.Int(g.runIdx).String()+"]."+fld), c04A("m."+fld))
+			}
+		}
 		if !known && okF {
 			known, val = c04Decide(g.substEnv(tf, st.env), st.facts)
+		}
+		if !known && okF && (st.pend == c04NonEmpty || st.pend == c04Flushed) {
+			// a pending or flushed run is non-empty and stays so: it is only ever extended (C04.merge
+			// extend-guard / extend-value decide that an extension never shrinks it)
+			for _, q := range nonEmptyFacts {
+				if tf.Same(q) {
+					known, val = true, true
+				}
+			}
+			for _, q := range emptyFacts {
+				if tf.Same(q) {
+					known, val = true, false
+				}
+			}
 		}
 		for i, su := range b.Succs {
 			taken := i == 0
